@@ -196,3 +196,61 @@ func VX_C05_HTTPGzipStream(args []int) {
 	vxAssert(w.off == len(w.data), "stream consumed exactly")
 	vxCover("c05.http.gzip-stream")
 }
+
+func init() { vxRegister("VX_C15_HTTPStrayReply", VX_C15_HTTPStrayReply) }
+
+// VX_C15_HTTPStrayReply: a client session speaking the HTTP-style protocol
+// receives business-error responses ("299" + a status document) for a pending
+// call and then the same response again (nothing pending any more), or for a
+// sequence number that was never used; afterwards an unknown route on another
+// peer (default protocol) is still answered with the documented 404 status and
+// an oversized frame with the documented 107. args: nSym (symbolic characters in the stray status' message)
+func VX_C15_HTTPStrayReply(args []int) {
+	unknown := func(when string) {
+		p := erpc.NewPeer(erpc.PeerConfig{})
+		c := newVxConn("srv:1", "cli:"+when)
+		c.feed(vxFrame(erpc.TypeCall, 5, "/no/such/route", []byte("x")))
+		_, st := p.ServeConn(c)
+		vxAssume(st.OK())
+		vxWaitIdle()
+		vxAssert(c.nWrites() == 1, "[C03] unknown route answered")
+		if c.nWrites() == 1 {
+			m, err := vxParse(c.writes[0])
+			vxAssert(err == nil, "reply parses")
+			if err == nil {
+				s := m.Status(true)
+				vxAssert(s.Code() == erpc.CodeNotFound && s.Msg() == "Not Found" && s.Cause().Error() == "", "an unknown route is answered 404 Not Found whatever other sessions received before ("+when+")")
+			}
+		}
+	}
+	unknown("before")
+	p := erpc.NewPeer(erpc.PeerConfig{})
+	conn := newVxConn("cli:1", "backend:2")
+	s, st := p.ServeConn(conn, NewHTTProtoFunc())
+	vxAssume(st.OK())
+	vxWaitIdle()
+	cmd := s.AsyncCall("/a/b", []byte("q"), new([]byte), make(chan erpc.CallCmd, 1))
+	msg := vxString("m", args[0])
+	for k := 0; k < len(msg); k++ {
+		vxAssume(msg[k] >= 'a' && msg[k] <= 'z')
+	}
+	payload := `{"code":7,"msg":"biz` + msg + `","cause":"remote"}`
+	resp := func(seq int32) []byte {
+		return []byte("HTTP/1.1 299 Business Error\r\nContent-Type: application/json\r\nContent-Length: " + string(rune('0'+len(payload)/10)) + string(rune('0'+len(payload)%10)) +
+			"\r\nX-Mtype: 2\r\nX-Seq: " + string(rune('0'+seq)) + "\r\n\r\n" + payload)
+	}
+	seq := cmd.Output().Seq()
+	conn.feed(resp(seq))
+	vxWaitIdle()
+	select {
+	case <-cmd.Done():
+		vxAssert(cmd.Status().Code() == 7, "[C04] the caller sees the business status")
+	default:
+		vxAssert(false, "[C02] the call completes with its reply")
+	}
+	conn.feed(resp(seq))     // the same response again: nothing is pending
+	conn.feed(resp(seq + 3)) // and one for a sequence number never used
+	vxWaitIdle()
+	unknown("after")
+	vxCover("c15.http.stray-reply")
+}
